@@ -118,90 +118,97 @@ def run(ctx: Ctx) -> None:
     t0 = _t.time()
     nproc = int(os.environ.get("VERIF_PROCS", "5" if quick else "10"))
     pool = mp.get_context("spawn").Pool(nproc, initializer=_warm)      # imports overlap with the model checking
-    if not quick:
-        # the design as found (no message for an empty str(exc); HTTP cuts at 500 chars) violates the clauses: documentation
-        wrap_module(wd, "AccessLog", "MC_AsFound", {}, extends="TLC")
-        r0 = run_tlc(wd, "MC_AsFound", render_cfg(constants=consts(1, 1, ["empty", "long"], fix=False),
-                                                  invariants=["ErrorMessageNonEmpty", "ErrorMessageFull"]),
-                     env={"JAVA_TOOL_OPTIONS": "-XX:TieredStopAtLevel=1"}, workers=2, cont=True)
-        ctx.extra["design_as_found_violates"] = sorted(set(re.findall(r"Invariant (\w+) is violated", r0.out)))
-
-    mt = 2 if quick else 3
-    pair_msgs = ["ascii"] if quick else ["ascii", "empty", "long"]
-    hs = model_check(ctx, wd, f"AccessLog exhaustive MaxCalls=2 MaxTicks={mt} msgs=all, two-call msgs={pair_msgs}, second call {'short scripts' if quick else 'any'}",
-                     consts(2, mt, MSGS, pair_msgs, full_pairs=not quick))
-    singles = [h for h in hs if len(h["script"]) == 1]
-    pairs = [h for h in hs if len(h["script"]) == 2]
-    ctx.exhaustive = True
-    ctx.rule = ("case = one call history (script of 1-2 calls with client exit points, transport, message class) "
-                "enumerated by TLC, replayed on a fresh real pipe connection / the in-process HTTP client with one "
-                "concrete exception class and message; non-trivial = distinct (history, transport, concrete message, "
-                "logger level) tuples executed; single-call histories all, two-call histories a seeded sample")
-    ctx.assume("HTTP legs use the in-process falcon test client (make_sync_client)",
-               "socket-family transport = make_pipe_pair; records are collected after the serve loop ended",
-               "logger level alternates INFO (payload omitted) / DEBUG (request_data, state tokens present)",
-               "two-call histories: seeded sample of the TLC-enumerated set (quick 300, thorough 6000)")
-    ctx.rng.shuffle(pairs)
-    n_pairs = 300 if quick else 6000
-    chosen = singles + pairs[:n_pairs]
-    classes = CLASSES_Q if quick else CLASSES_T
-    jobs = []
-    for i, h in enumerate(chosen):
-        reps = 1 if (quick or h["msg"] == "none" or len(h["script"]) == 2) else 2
-        for rep in range(reps):
-            cls, text, argc = concretize(h["msg"], i + 7 * rep, ctx.rng, classes)
-            jobs.append({"tr": h["tr"], "msg": h["msg"], "script": h["script"], "cls": cls, "text": text, "argc": argc,
-                         "debug": (i + rep) % 2 == 1, "model": {"hist": h["hist"], "alog": h["alog"], "outc": h["outc"]}})
-    ctx.extra["model_phase_s"] = round(_t.time() - t0, 1)
-    t1 = _t.time()
-    shards = [[{k: v for k, v in j.items() if k != "model"} for j in jobs[k::nproc]] for k in range(nproc)]
     try:
-        parts = pool.map_async(work, shards).get(timeout=1500)
-    except mp.TimeoutError as e:
-        pool.terminate()
-        raise MachineryError("C34 workers did not finish") from e
-    pool.close()
-    ctx.extra["real_code_phase_s"] = round(_t.time() - t1, 1)
-    results: list = [None] * len(jobs)
-    for k, part in enumerate(parts):
-        for j, r in zip(range(k, len(jobs), nproc), part):
-            results[j] = r
+        if not quick:
+            # the design as found (no message for an empty str(exc); HTTP cuts at 500 chars) violates the clauses: documentation
+            wrap_module(wd, "AccessLog", "MC_AsFound", {}, extends="TLC")
+            r0 = run_tlc(wd, "MC_AsFound", render_cfg(constants=consts(1, 1, ["empty", "long"], fix=False),
+                                                      invariants=["ErrorMessageNonEmpty", "ErrorMessageFull"]),
+                         env={"JAVA_TOOL_OPTIONS": "-XX:TieredStopAtLevel=1"}, workers=2, cont=True)
+            ctx.extra["design_as_found_violates"] = sorted(set(re.findall(r"Invariant (\w+) is violated", r0.out)))
 
-    traces = []
-    for job, res in zip(jobs, results):
-        ctx.case([job["tr"], job["script"], job["cls"], job["text"][:48], len(job["text"]), job["argc"], job["debug"]])
-        traces.append({"tr": job["tr"], "msg": job["msg"], "script": job["script"], "events": res["events"],
-                       "recs": res["recs"]})
-    for job, res in list(zip(jobs, results))[:: max(1, len(jobs) // 5)][:5]:
-        ctx.sample({"transport": job["tr"], "script": job["script"], "exception": [job["cls"], job["text"][:60], len(job["text"])],
-                    "client_events": res["events"], "access_records": res["recs"], "model_alog": job["model"]["alog"]})
-    verdicts = tracecheck.validate(ctx, wd, "AccessLogTrace", traces, constants=consts(2, 3, MSGS),
-                                   name="AccessLogTrace: (client events, access records) of every replay", chunk=4000)
-    n_acc = 0
-    for job, res, v in zip(jobs, results, verdicts):
-        sig = {"tr": job["tr"], "msg": job["msg"], "text_len_class": _len_class(job, res),
-               "kinds": "+".join(c["k"] for c in job["script"])}
-        det = {"script": job["script"], "exception": [job["cls"], job["text"][:200], len(job["text"]), job["argc"]],
-               "logger_level": "DEBUG" if job["debug"] else "INFO", "client_events": res["events"],
-               "access_records": res["recs"], "record_details": res["details"], "server_errors": res["errs"],
-               "model": job["model"], "tlc": v}
-        if res["hung"]:
-            ctx.drift.append({"hung": True, **det})
-            continue
-        bad = [b for b in v["bad"]]
-        if v["accepted"]:
-            n_acc += 1
-            if not bad:
-                ctx.traces_validated += 1
-        else:
-            # the client history is not the one the model predicts for this script: not C34's subject (C01/C07/C10)
-            ctx.drift.append({"client_history_differs": True, "script": job["script"], "tr": job["tr"],
-                              "real": res["events"], "model": job["model"]["hist"], "tlc": v})
-        for cl in bad:
-            if cl == "RecordsAlign":
-                ctx.drift.append({"records_do_not_align": True, **det})
+        mt = 2 if quick else 3
+        pair_msgs = ["ascii"] if quick else ["ascii", "empty", "long"]
+        hs = model_check(ctx, wd, f"AccessLog exhaustive MaxCalls=2 MaxTicks={mt} msgs=all, two-call msgs={pair_msgs}, second call {'short scripts' if quick else 'any'}",
+                         consts(2, mt, MSGS, pair_msgs, full_pairs=not quick))
+        import json as _json
+
+        hs.sort(key=lambda h: _json.dumps([h["tr"], h["script"], h["msg"]], sort_keys=True))   # TLC's output order varies
+        singles = [h for h in hs if len(h["script"]) == 1]
+        pairs = [h for h in hs if len(h["script"]) == 2]
+        ctx.exhaustive = True
+        ctx.rule = ("case = one call history (script of 1-2 calls with client exit points, transport, message class) "
+                    "enumerated by TLC, replayed on a fresh real pipe connection / the in-process HTTP client with one "
+                    "concrete exception class and message; non-trivial = distinct (history, transport, concrete message, "
+                    "logger level) tuples executed; single-call histories all, two-call histories a seeded sample")
+        ctx.assume("HTTP legs use the in-process falcon test client (make_sync_client)",
+                   "socket-family transport = make_pipe_pair; records are collected after the serve loop ended",
+                   "logger level alternates INFO (payload omitted) / DEBUG (request_data, state tokens present)",
+                   "two-call histories: seeded sample of the TLC-enumerated set (quick 300, thorough 6000); in quick the "
+                   "second call of a history is one with a short client script (AccessLog!ShortOps) and message class ascii")
+        ctx.rng.shuffle(pairs)
+        n_pairs = 300 if quick else 6000
+        chosen = singles + pairs[:n_pairs]
+        classes = CLASSES_Q if quick else CLASSES_T
+        jobs = []
+        for i, h in enumerate(chosen):
+            reps = 1 if (quick or h["msg"] == "none" or len(h["script"]) == 2) else 2
+            for rep in range(reps):
+                cls, text, argc = concretize(h["msg"], i + 7 * rep, ctx.rng, classes)
+                jobs.append({"tr": h["tr"], "msg": h["msg"], "script": h["script"], "cls": cls, "text": text, "argc": argc,
+                             "debug": (i + rep) % 2 == 1, "model": {"hist": h["hist"], "alog": h["alog"], "outc": h["outc"]}})
+        ctx.extra["model_phase_s"] = round(_t.time() - t0, 1)
+        t1 = _t.time()
+        shards = [[{k: v for k, v in j.items() if k != "model"} for j in jobs[k::nproc]] for k in range(nproc)]
+        try:
+            parts = pool.map_async(work, shards).get(timeout=1500)
+        except mp.TimeoutError as e:
+            pool.terminate()
+            raise MachineryError("C34 workers did not finish") from e
+        pool.close()
+        ctx.extra["real_code_phase_s"] = round(_t.time() - t1, 1)
+        results: list = [None] * len(jobs)
+        for k, part in enumerate(parts):
+            for j, r in zip(range(k, len(jobs), nproc), part):
+                results[j] = r
+
+        traces = []
+        for job, res in zip(jobs, results):
+            ctx.case([job["tr"], job["script"], job["cls"], job["text"][:48], len(job["text"]), job["argc"], job["debug"]])
+            traces.append({"tr": job["tr"], "msg": job["msg"], "script": job["script"], "events": res["events"],
+                           "recs": res["recs"]})
+        for job, res in list(zip(jobs, results))[:: max(1, len(jobs) // 5)][:5]:
+            ctx.sample({"transport": job["tr"], "script": job["script"], "exception": [job["cls"], job["text"][:60], len(job["text"])],
+                        "client_events": res["events"], "access_records": res["recs"], "model_alog": job["model"]["alog"]})
+        verdicts = tracecheck.validate(ctx, wd, "AccessLogTrace", traces, constants=consts(2, 3, MSGS),
+                                       name="AccessLogTrace: (client events, access records) of every replay", chunk=4000)
+        n_acc = 0
+        for job, res, v in zip(jobs, results, verdicts):
+            sig = {"tr": job["tr"], "msg": job["msg"], "text_len_class": _len_class(job, res),
+                   "kinds": "+".join(c["k"] for c in job["script"])}
+            det = {"script": job["script"], "exception": [job["cls"], job["text"][:200], len(job["text"]), job["argc"]],
+                   "logger_level": "DEBUG" if job["debug"] else "INFO", "client_events": res["events"],
+                   "access_records": res["recs"], "record_details": res["details"], "server_errors": res["errs"],
+                   "model": job["model"], "tlc": v}
+            if res["hung"]:
+                ctx.drift.append({"hung": True, **det})
                 continue
-            ctx.violation(cl, sig, det)
-    ctx.extra["histories_replayed"] = len(jobs)
-    ctx.extra["histories_accepted_by_model"] = n_acc
-    ctx.extra["workers"] = nproc
+            bad = [b for b in v["bad"]]
+            if v["accepted"]:
+                n_acc += 1
+                if not bad:
+                    ctx.traces_validated += 1
+            else:
+                # the client history is not the one the model predicts for this script: not C34's subject (C01/C07/C10)
+                ctx.drift.append({"client_history_differs": True, "script": job["script"], "tr": job["tr"],
+                                  "real": res["events"], "model": job["model"]["hist"], "tlc": v})
+            for cl in bad:
+                if cl == "RecordsAlign":
+                    ctx.drift.append({"records_do_not_align": True, **det})
+                    continue
+                ctx.violation(cl, sig, det)
+        ctx.extra["histories_replayed"] = len(jobs)
+        ctx.extra["histories_accepted_by_model"] = n_acc
+        ctx.extra["workers"] = nproc
+    finally:
+        pool.terminate()
